@@ -1,5 +1,6 @@
 CONSTANTS
  Limit = 10
+ Limits = {10, 12, 20}
  MaxOps = 40
  TornRemoved = TRUE
  EmitFrom = 40
